@@ -370,6 +370,9 @@ def run(ctx, rep):
     import api_rules as AR
     ng = AR.check_getters(fx, rep, "C19.api", "mapping::MappingSummary")
     AR.check_mapping_wiring(fx, rep, "C19.api")
+    # "a method record anywhere in the file": the record stream itself (line discipline, dispatch, grammars) is a premise
+    import parser_rules as PRM
+    PRM.check_parser_premises(fx, rep, "C19.P")
     rep.floor("C19.api", ng, 5, "MappingSummary getters")
     # control: an early negative exit is a different per-record structure
     cx = ctx.controls()
